@@ -23,7 +23,7 @@ META = {
         "technique": "property-based testing (rapid) with a validity predicate over (before, write, result, after) and a metamorphic independence relation; exhaustive sweep over small lists x flag states x shapes",
         "design_ref": "DESIGN.md §4 C04",
         "level_text": "Every write shape a peer can send is generated against lists mixing changeable, unchangeable and flag-less elements, sent over the wire by a bound peer and judged from the result datagram and DataCopy: protected elements deep-equal afterwards, flags never altered, error => data byte-identical, success => all addressed changeable elements show the change, unaddressed elements neither change nor influence the verdict (re-executed on two variant worlds). Exhaustive for lists up to 3 (quick) / 4 (thorough) elements with fixed field values; random beyond.",
-        "level_note": "Trusted: reference fold for P4, the harness's notion of 'addressed' (DESIGN §4 C04). Open finding F03 (full write replaces protected elements) is reported as KNOWN-FINDING by signature; any other predicate/shape combination is a violation.",
+        "level_note": "Trusted: reference fold for P4, the harness's notion of 'addressed' (DESIGN §4 C04). Finding F03 (full write replaces protected elements) was repaired in /repo (cda48ec); its entry is 'fixed' and suppresses nothing.",
     },
     "C11": {
         "technique": "property-based testing (rapid histories): retained snapshots compared with their recorded encoding after every later update; before/after equality for failed and non-persisting updates",
